@@ -39,7 +39,7 @@ const (
 var idpreqLoc = map[string]string{
 	"A": "https://sp.example.com/saml/acs",
 	"B": "https://sp.example.com/saml/acs2",
-	"C": "https://sp.example.com/other/acs",
+	"C": "HTTPS://sp.example.com/other/acs#", // upper-case scheme, empty fragment: valid, and to be used exactly as registered
 	"O": "https://other.example.com/saml/acs",
 }
 
@@ -334,6 +334,8 @@ func idpreqRequestXML(v *idpreqVec, now time.Time, rng *rand.Rand, id string) []
 	}
 	switch in.II {
 	case "absent":
+	case "ancient":
+		el.CreateAttr("IssueInstant", idpreqPick(rng, "1000-01-01T00:00:00Z", "1066-10-14T09:00:00Z", "1492-10-12T06:00:00.000Z", "1600-02-29T12:00:00+01:00", "1675-06-01T00:00:00Z", "0101-01-01T00:00:00Z"))
 	case "garbage":
 		el.CreateAttr("IssueInstant", idpreqPick(rng, "yesterday", "2024-13-45T99:00:00Z", "1710064800", "2024-03-10 10:00:00"))
 	default:
